@@ -529,6 +529,7 @@ class ACursorLeaf(urwid.Widget):
         self.seen = []
         self.events = []
         self.moved = []
+        self.cursor_queries = []
         self.accept_mouse = I.bool("mouse_ok_" + name)
         self.accept_move = I.bool("move_ok_" + name)
         self.last_size = None
@@ -558,6 +559,7 @@ class ACursorLeaf(urwid.Widget):
 
     def get_cursor_coords(self, size):
         self._cursor_ok(size)
+        self.cursor_queries.append(size)
         return (self.cx, self.cy)
 
     def get_pref_col(self, size):
